@@ -59,6 +59,18 @@ Theorem C20_load_as_found_refuted :
 Proof. exact load_as_found_refuted. Qed.
 Print Assumptions C20_load_as_found_refuted.
 
+(* Load replaces the book by what is stored: its result does not depend on what was held before
+   (no address of the previous book survives a Load in the index or in the list) *)
+Theorem C20_load_replaces : forall g l1 l2 st0,
+  step g (mkSt l1 st0) OLoad = step g (mkSt l2 st0) OLoad.
+Proof. exact load_replaces. Qed.
+Print Assumptions C20_load_replaces.
+
+Theorem C20_load_is_stored : forall g l0 bs l,
+  load_bytes g bs = Ok l -> plist (fst (step g (mkSt l0 (Some bs)) OLoad)) = l.
+Proof. exact load_is_stored. Qed.
+Print Assumptions C20_load_is_stored.
+
 (* Non-vacuity: a concrete non-trivial history meets the hypotheses, and the records of a
    concrete non-trivial book meet [wf_list]. *)
 Definition ex_ops : list op :=
